@@ -5,7 +5,7 @@
 //! as a check: only after a glue obligation failed, to look for an input that shows the failure on the real code.
 use asn1rs::prelude::*;
 
-include!("gluezoo_gen.rs");
+include!("../gluezoo_gen.rs");
 
 fn rt<T: Readable + Writable + PartialEq + std::fmt::Debug>(bytes: &[u8], bits: usize) -> Result<bool, String> {
     let mut r = UperReader::from((bytes, bits));
